@@ -1,20 +1,25 @@
 (* C13 - Transpilation targets the device: native gates, coupled qubits, same unitary; what cannot be brought into this form
    is refused.
 
-   Model: Model/Transpile.v `transpile d N c` = the statements of ModelProcessor.transpile in the ORDER the translator reads off
-   the source (Gen/Devices.v: per processor class the native_gates literal and what topology_map does; the pass list; the
-   qubit-count threshold of _decompose_multi_qubit_gates), over the C07 routing model (Model/Route.v, `Route.route Route.fixed`)
-   and the C03 decomposition model (Model/Resolve.v, `resolve`).  The theorems describe the tree WITH
-   fixes/C13-decompose-multi-qubit-gates (gates on more than two qubits are rewritten in native gates BEFORE the topology map);
-   on the tree as found the pass list is [PTopology; PResolve], `passes_fixed` does not compile, and
+   Model: Model/Transpile.v `transpile_on d Ndev M c` (Ndev = qubits of the processor, M = width qc.N of the circuit) = the
+   statements of ModelProcessor.transpile in the ORDER the translator reads off the source (Gen/Devices.v: per processor class
+   the native_gates literal, what topology_map does for a circuit as wide as the processor and for a narrower one, the gates it
+   refuses unless they sit on neighbours; the pass list; the qubit-count threshold of _decompose_multi_qubit_gates), over the
+   C07 routing model (Model/Route.v, `Route.route Route.fixed`) and the C03 decomposition model (Model/Resolve.v, `resolve`).
+   The theorems describe the tree WITH
+     fixes/C13-decompose-multi-qubit-gates  gates on more than two qubits are rewritten in native gates BEFORE the topology map,
+     fixes/C13-circuit-width                a circuit wider than the processor is refused; a circuit narrower than a ring is
+                                            routed as the open segment of the ring it occupies,
+     fixes/C13-rzx-neighbours               SCQubits refuses an RZX gate whose targets are not neighbours;
+   on a tree without them the pass list / device table differ, `passes_fixed` or `tables_ok` do not compile, and
    transpile_coupled_refuted_unfixed applies.
 
    Quantification: every processor d of the device table (LinearSpinChain, CircularSpinChain, SCQubits, DispersiveCavityQED),
-   every width N (no bound), every circuit c of well-formed instances of the 20 resolvable kinds (C03 `wf_gate`: X Y Z SNOT H
-   SQRTNOT PHASEGATE RX RY RZ IDLE CNOT CSIGN SWAP ISWAP SQRTSWAP SQRTISWAP TOFFOLI FREDKIN GLOBALPHASE on pairwise different
-   qubits) inside the register, of any length; two-qubit gates at every distance, three-qubit gates on every triple; every
-   phase ring R and environment env (= every real value of every gate parameter).  N is the width of the circuit AND of the
-   processor (to_chain_structure routes on the circuit's width; known finding circuit-width-differs). *)
+   every processor size Ndev and circuit width M (no bound; the positive theorems need M <= Ndev, which transpile = Ok implies),
+   every circuit c of well-formed instances of the 20 resolvable kinds (C03 `wf_gate`: X Y Z SNOT H SQRTNOT PHASEGATE RX RY RZ
+   IDLE CNOT CSIGN SWAP ISWAP SQRTSWAP SQRTISWAP TOFFOLI FREDKIN GLOBALPHASE on pairwise different qubits) inside the circuit,
+   of any length; two-qubit gates at every distance, three-qubit gates on every triple; every phase ring R and environment
+   env (= every real value of every gate parameter). *)
 From Coq Require Import List String Bool Arith.
 From QV Require Import Found.Circ Model.ResolveTypes Gen.Decompose Gen.Gates Model.Resolve Proofs.ResolveSem Proofs.ResolveRefuted.
 From QV Require Import Model.TranspileTypes Gen.Devices Model.Transpile.
@@ -24,39 +29,41 @@ From QV Require Model.SpinChain Proofs.SpinChainSem.
 Import ListNotations.
 Local Open Scope string_scope.
 
+Lemma all_noP c : Forall (fun g : mgate => noP (gname g)) c.
+Proof. apply Forall_forall; intros; exact I. Qed.
+
 (* every gate of the transpiled circuit is a native gate of the processor, GLOBALPHASE or IDLE *)
-Theorem transpile_native : forall d N c out, In d devices ->
-  Forall wf_gate c -> Forall (fun g => in_range N g = true) c -> transpile d N c = Ok out ->
+Theorem transpile_native : forall d Ndev M c out, In d devices ->
+  Forall wf_gate c -> Forall (fun g => in_range M g = true) c -> transpile_on d Ndev M c = Ok out ->
   Forall (fun o => native_gate d o = true) out.
 Proof.
-  intros d N c out Hd Hw Hr H.
-  assert (HP : Forall (fun g => noP (gname g)) c) by (apply Forall_forall; intros; exact I).
-  pose proof (transpile_structure noP d N c out Hd I Hw HP Hr H) as S.
+  intros d Ndev M c out Hd Hw Hr H.
+  destruct (transpile_structure noP d Ndev M c out Hd I Hw (all_noP c) Hr H) as [_ S].
   eapply Forall_impl; [|exact S]. intros o [H1 _]. exact H1.
 Qed.
 Print Assumptions transpile_native.
 
-(* every gate of the transpiled circuit on two or more qubits is a two-qubit gate on a pair the hardware couples directly:
-   |a-b| = 1 on the open chain (LinearSpinChain, SCQubits), neighbours including (N-1, 0) on the ring, any two different
-   qubits of the register through the cavity; and no gate leaves the register *)
-Theorem transpile_coupled : forall d N c out, In d devices ->
-  Forall wf_gate c -> Forall (fun g => in_range N g = true) c -> transpile d N c = Ok out ->
-  Forall (fun o => coupled_gate (dtopo d) N o = true /\ in_range N o = true) out.
+(* every gate of the transpiled circuit on two or more qubits is a two-qubit gate on a pair the hardware OF Ndev QUBITS couples
+   directly: |a-b| = 1 on the open chain (LinearSpinChain, SCQubits), neighbours including (Ndev-1, 0) on the ring, any two
+   different qubits through the cavity; no gate leaves the circuit; and the circuit was not wider than the processor *)
+Theorem transpile_coupled : forall d Ndev M c out, In d devices ->
+  Forall wf_gate c -> Forall (fun g => in_range M g = true) c -> transpile_on d Ndev M c = Ok out ->
+  (M <= Ndev)%nat /\ Forall (fun o => coupled_gate (dtopo d) Ndev o = true /\ in_range M o = true) out.
 Proof.
-  intros d N c out Hd Hw Hr H.
-  assert (HP : Forall (fun g => noP (gname g)) c) by (apply Forall_forall; intros; exact I).
-  pose proof (transpile_structure noP d N c out Hd I Hw HP Hr H) as S.
+  intros d Ndev M c out Hd Hw Hr H.
+  destruct (transpile_structure noP d Ndev M c out Hd I Hw (all_noP c) Hr H) as [HM S]. split; [exact HM|].
   eapply Forall_impl; [|exact S]. intros o [_ [H2 [H3 _]]]. auto.
 Qed.
 Print Assumptions transpile_coupled.
 
 (* ... where "the hardware" is the hand-written table of the property text (Proofs/TranspileTop.v hardware_topology), which
    the topology map every processor class calls is checked against *)
-Theorem transpile_coupled_hardware : forall d t N c out, In d devices -> hardware_topology (dname d) = Some t ->
-  Forall wf_gate c -> Forall (fun g => in_range N g = true) c -> transpile d N c = Ok out ->
-  Forall (fun o => coupled_gate t N o = true /\ in_range N o = true) out.
+Theorem transpile_coupled_hardware : forall d t Ndev M c out, In d devices -> hardware_topology (dname d) = Some t ->
+  Forall wf_gate c -> Forall (fun g => in_range M g = true) c -> transpile_on d Ndev M c = Ok out ->
+  Forall (fun o => coupled_gate t Ndev o = true /\ in_range M o = true) out.
 Proof.
-  intros d t N c out Hd Ht. rewrite (hardware_is_dtopo d t Hd Ht). apply transpile_coupled. exact Hd.
+  intros d t Ndev M c out Hd Ht Hw Hr H. rewrite (hardware_is_dtopo d t Hd Ht).
+  exact (proj2 (transpile_coupled d Ndev M c out Hd Hw Hr H)).
 Qed.
 Print Assumptions transpile_coupled_hardware.
 Theorem devices_match_hardware : devices_match = true.
@@ -65,29 +72,40 @@ Print Assumptions devices_match_hardware.
 
 (* the transpiled circuit acts on every state of every register exactly as the input circuit - global phase included - for
    all parameter values *)
-Theorem transpile_sem : forall d N c out, In d devices ->
-  Forall wf_gate c -> Forall (fun g => in_range N g = true) c -> transpile d N c = Ok out ->
+Theorem transpile_sem : forall d Ndev M c out, In d devices ->
+  Forall wf_gate c -> Forall (fun g => in_range M g = true) c -> transpile_on d Ndev M c = Ok out ->
   forall (R : PhaseRing) (env : nat -> atoms R), sem (cden R env out) = sem (cden R env c).
 Proof. exact transpile_sem_proof. Qed.
 Print Assumptions transpile_sem.
 
-(* such a circuit is accepted, unless it holds a SQRTSWAP / SQRTISWAP that is not a native gate of the processor *)
-Theorem transpile_succeeds : forall d N c, In d devices ->
-  Forall wf_gate c -> Forall (fun g => in_range N g = true) c ->
+(* a circuit that fits the processor is accepted, unless it holds a SQRTSWAP / SQRTISWAP that is not a native gate *)
+Theorem transpile_succeeds : forall d Ndev M c, In d devices -> (M <= Ndev)%nat ->
+  Forall wf_gate c -> Forall (fun g => in_range M g = true) c ->
   (forall lst, dnative d = Some lst -> Forall (fun g => sq_name (cfg_of lst) (gname g)) c) ->
-  exists out, transpile d N c = Ok out.
+  exists out, transpile_on d Ndev M c = Ok out.
 Proof. exact transpile_succeeds_proof. Qed.
 Print Assumptions transpile_succeeds.
 
+(* a circuit wider than the processor is refused, whatever it holds *)
+Theorem transpile_refuses_wide : forall d Ndev M c, (Ndev < M)%nat -> transpile_on d Ndev M c = Error.
+Proof. exact transpile_refuses_wide_proof. Qed.
+Print Assumptions transpile_refuses_wide.
+
 (* a gate without any decomposition rule that is not a native gate makes the whole call fail, wherever it stands *)
-Theorem transpile_refuses : forall d N c g, In d devices -> In g c ->
+Theorem transpile_refuses : forall d Ndev M c g, In d devices -> In g c ->
   mem (gname g) pauli_names = false -> find_rule (gname g) = None ->
   (forall lst, dnative d = Some lst -> mem (gname g) lst = false) ->
-  transpile d N c = Error.
+  transpile_on d Ndev M c = Error.
 Proof. exact transpile_refuses_proof. Qed.
 Print Assumptions transpile_refuses.
 
-Theorem transpile_rejects_measurement : forall d N ops, In d devices -> In OpMeasure ops -> transpile_ops d N ops = Error.
+(* a native gate the topology map cannot route (RZX of SCQubits), on two targets that are not neighbours, is refused *)
+Theorem transpile_refuses_unrouted : forall d Ndev M c g, In d devices -> In g c -> mem (gname g) (dunrouted d) = true ->
+  gcontrols g = [] -> (length (gtargets g) <= 2)%nat -> near_targets g = false -> transpile_on d Ndev M c = Error.
+Proof. exact transpile_refuses_unrouted_proof. Qed.
+Print Assumptions transpile_refuses_unrouted.
+
+Theorem transpile_rejects_measurement : forall d Ndev M ops, In d devices -> In OpMeasure ops -> transpile_ops d Ndev M ops = Error.
 Proof. exact transpile_rejects_measurement_proof. Qed.
 Print Assumptions transpile_rejects_measurement.
 
@@ -97,6 +115,12 @@ Theorem devices_valid : forallb dev_good devices = true.
 Proof. exact devs_good. Qed.
 Print Assumptions devices_valid.
 
+(* ... a circuit narrower than the processor is routed on a topology whose pairs are pairs of the hardware (an open chain;
+   never the narrower circuit's own ring), and the gates a topology map refuses are none of the resolvable kinds *)
+Theorem devices_width_rules : forallb table_ok devices = true.
+Proof. exact tables_ok. Qed.
+Print Assumptions devices_width_rules.
+
 (* the generated obligations behind the coupling theorem: in the native configurations, every gate the decomposition of any
    of the 20 kinds emits acts on pairwise different qubits OF ITS SOURCE GATE and is a one-control-one-target CNOT/CSIGN, a
    two-target swap-type gate, a one-target rotation / idle gate or a global phase *)
@@ -104,8 +128,8 @@ Theorem decomposition_stays_on_source_qubits : forallb (fun c => forallb (check_
 Proof. exact shapes_ok. Qed.
 Print Assumptions decomposition_stays_on_source_qubits.
 
-(* the shape of transpile the proofs are about: multi-qubit gates first, then the topology map, then resolve_gates *)
-Theorem transpile_order : transpile_passes = [PExpand; PTopology; PResolve] /\ expand_threshold = 2%nat.
+(* the shape of transpile the proofs are about: width test, multi-qubit gates, topology map, resolve_gates *)
+Theorem transpile_order : transpile_passes = [PWidth; PExpand; PTopology; PResolve] /\ expand_threshold = 2%nat.
 Proof. exact (conj passes_fixed threshold_two). Qed.
 Print Assumptions transpile_order.
 
@@ -118,10 +142,10 @@ Print Assumptions placement_reflects_semantics.
 
 (* ---- C06: hypothesis c13_transpile_native of Props/C06.v spinchain_reproduces_circuit --------------------------------- *)
 (* for ANY list of C06 gates with the names and targets of the transpiled circuit, on a chain of N qubits *)
-Theorem transpile_wf_circuit : forall d N c out (cc : SpinChain.cfg) (gs : list SpinChain.ngate), In d devices ->
-  Forall wf_gate c -> Forall (fun g => in_range N g = true) c -> transpile d N c = Ok out ->
+Theorem transpile_wf_circuit : forall d N M c out (cc : SpinChain.cfg) (gs : list SpinChain.ngate), In d devices ->
+  Forall wf_gate c -> Forall (fun g => in_range M g = true) c -> transpile_on d N M c = Ok out ->
   SpinChain.c_n cc = N -> Forall2 same_gate out gs -> SpinChainSem.wf_circuit cc gs.
-Proof. exact transpile_wf_circuit_proof. Qed.
+Proof. exact transpile_wf_circuit_on_proof. Qed.
 Print Assumptions transpile_wf_circuit.
 
 (* ---- the code as found (topology map first, decomposition afterwards): the coupling clause fails ------------------------- *)
@@ -136,27 +160,51 @@ Proof.
 Qed.
 Print Assumptions transpile_coupled_refuted_unfixed.
 
+(* without the width rules: a 3-qubit circuit routed as ITS OWN ring keeps CNOT(0 -> 2) on the pair (0,2), which the 5-ring
+   does not couple (the code as found = the same routing with the circuit's width as the ring size) *)
+Theorem transpile_narrow_ring_refuted_unfixed :
+  exists out, transpile_unfixed dev_CircularSpinChain 3 3 [MG "CNOT" [2] [0] [] 0]%nat = Ok out /\
+              forallb (coupled_gate TopoCircular 3) out = true /\ forallb (coupled_gate TopoCircular 5) out = false.
+Proof. eexists. split; [vm_compute; reflexivity|]. split; vm_compute; reflexivity. Qed.
+Print Assumptions transpile_narrow_ring_refuted_unfixed.
+
 (* ---- non-vacuity ----------------------------------------------------------------------------------------------------------- *)
 (* the 7-gate circuit of C03 (X, TOFFOLI on (4,2 -> 0), PHASEGATE, SWAP(2,0), FREDKIN, RY, GLOBALPHASE; 6 qubits) satisfies the
-   hypotheses on every processor of the table, is accepted by each, and the results are long *)
+   hypotheses on every processor of the table - as wide as the circuit, and wider (8 qubits) -, is accepted by each, and the
+   results are long *)
 Example hypotheses_inhabited : Forall wf_gate ex_circ /\ Forall (fun g => in_range 6 g = true) ex_circ /\
   (forall d lst, In d devices -> dnative d = Some lst -> Forall (fun g => sq_name (cfg_of lst) (gname g)) ex_circ) /\
-  forallb (fun d => match transpile d 6 ex_circ with Ok out => Nat.ltb 100 (length out) | Error => false end) devices = true.
+  forallb (fun d => match transpile_on d 6 6 ex_circ with Ok out => Nat.ltb 100 (length out) | Error => false end) devices = true /\
+  forallb (fun d => match transpile_on d 8 6 ex_circ with Ok out => Nat.ltb 100 (length out) | Error => false end) devices = true.
 Proof.
-  split; [exact ex_circ_wf|]. split; [repeat constructor|]. split.
+  split; [exact ex_circ_wf|]. split; [repeat constructor|]. split; [|split].
   - intros d lst _ _. repeat constructor; intros [E|E]; discriminate.
+  - vm_compute. reflexivity.
   - vm_compute. reflexivity.
 Qed.
 (* on the TOFFOLI witness the repaired pipeline meets the device on all four processors *)
 Example fixed_meets_device : forallb (fun d => fixed_good d 4) devices = true.
 Proof. exact fixed_on_witness. Qed.
-(* refusals happen: T on the spin chain, CS after an RX on the superconducting processor, a measurement *)
+(* the narrow circuit on the 5-ring: now routed as an open segment, every gate on a pair of the 5-ring; on the 3-ring the
+   wrap-around pair is used *)
+Example narrow_ring_fixed :
+  (exists out, transpile_on dev_CircularSpinChain 5 3 [MG "CNOT" [2] [0] [] 0]%nat = Ok out /\
+               forallb (coupled_gate TopoCircular 5) out = true /\ Nat.ltb 2 (length out) = true) /\
+  (exists out, transpile_on dev_CircularSpinChain 3 3 [MG "CNOT" [2] [0] [] 0]%nat = Ok out /\
+               forallb (coupled_gate TopoCircular 3) out = true).
+Proof. split; eexists; (split; [vm_compute; reflexivity|]); try split; vm_compute; reflexivity. Qed.
+(* refusals happen: T on the spin chain, CS after an RX on the superconducting processor, BERKELEY, a SQRTISWAP that is not
+   native, a measurement, a circuit wider than the processor, RZX on the far pair (0,2) - while RZX on neighbours is kept *)
 Example refusals_inhabited :
-  transpile dev_LinearSpinChain 3 [MG "T" [1] [] [] 0]%nat = Error /\ find_rule "T" = None /\
-  transpile dev_SCQubits 3 [MG "RX" [0] [] [Var 0] 0; MG "CS" [2] [0] [] 1]%nat = Error /\ find_rule "CS" = None /\
-  transpile dev_CircularSpinChain 4 [MG "BERKELEY" [0; 2] [] [] 0]%nat = Error /\
-  transpile dev_SCQubits 3 [MG "SQRTISWAP" [0; 2] [] [] 0]%nat = Error /\
-  transpile_ops dev_DispersiveCavityQED 2 [OpGate (MG "X" [0] [] [] 0); OpMeasure]%nat = Error.
+  transpile_on dev_LinearSpinChain 3 3 [MG "T" [1] [] [] 0]%nat = Error /\ find_rule "T" = None /\
+  transpile_on dev_SCQubits 3 3 [MG "RX" [0] [] [Var 0] 0; MG "CS" [2] [0] [] 1]%nat = Error /\ find_rule "CS" = None /\
+  transpile_on dev_CircularSpinChain 4 4 [MG "BERKELEY" [0; 2] [] [] 0]%nat = Error /\
+  transpile_on dev_SCQubits 3 3 [MG "SQRTISWAP" [0; 2] [] [] 0]%nat = Error /\
+  transpile_ops dev_DispersiveCavityQED 2 2 [OpGate (MG "X" [0] [] [] 0); OpMeasure]%nat = Error /\
+  transpile_on dev_LinearSpinChain 3 5 [MG "X" [0] [] [] 0]%nat = Error /\
+  transpile_on dev_SCQubits 3 3 [MG "RZX" [0; 2] [] [Var 0] 0]%nat = Error /\
+  transpile_on dev_SCQubits 3 3 [MG "RZX" [2; 1] [] [Var 0] 0]%nat = Ok [MG "RZX" [2; 1] [] [Var 0] 0]%nat /\
+  mem "RZX" (dunrouted dev_SCQubits) = true.
 Proof. repeat split; vm_compute; reflexivity. Qed.
 (* the coupling predicate is not trivial: (0,2) is not coupled on the open 3-chain, is coupled on the 3-ring and in the cavity;
    (0,3) closes the 4-ring *)
